@@ -9,7 +9,7 @@ base = json.load(open('/root/.vp/BASELINE.json'))
 want = set(base['stable_pass'])
 fd, xml = tempfile.mkstemp(suffix='.xml', dir='/var/tmp'); os.close(fd)
 env = dict(os.environ); env.pop('RSOCKET_PY_VERIF', None); env.pop('RSOCKET_SRC', None)
-cmd = ['/venv/bin/python', '-m', 'pytest', '-q', '-p', 'no:cacheprovider', '--timeout=900',
+cmd = ['/venv/bin/python', '-m', 'pytest', '-q', '-p', 'no:cacheprovider', '--timeout=120',
        '--continue-on-collection-errors', '--junitxml=' + xml] + sys.argv[2:]
 p = subprocess.run(cmd, cwd=repo, env=env, stdout=subprocess.PIPE, stderr=subprocess.STDOUT, text=True)
 passed = set()
@@ -18,6 +18,20 @@ for tc in ET.parse(xml).getroot().iter('testcase'):
         passed.add('%s::%s' % (tc.get('classname'), tc.get('name')))
 os.unlink(xml)
 missing = sorted(want - passed)
+# flake filter: the suite is timing-sensitive (BASELINE.json lists 88 flaky tests); re-run only the missing ones, up to 3 times
+for attempt in range(3):
+    if not missing:
+        break
+    ids = ['%s.py::%s' % (m.split('::')[0].replace('.', '/'), m.split('::', 1)[1]) for m in missing]
+    fd, xml2 = tempfile.mkstemp(suffix='.xml', dir='/var/tmp'); os.close(fd)
+    subprocess.run(['/venv/bin/python', '-m', 'pytest', '-q', '-p', 'no:cacheprovider', '--timeout=120', '--junitxml=' + xml2] + ids,
+                   cwd=repo, env=env, stdout=subprocess.PIPE, stderr=subprocess.STDOUT, text=True)
+    for tc in ET.parse(xml2).getroot().iter('testcase'):
+        if not any(ch.tag in ('failure', 'error', 'skipped') for ch in tc):
+            passed.add('%s::%s' % (tc.get('classname'), tc.get('name')))
+    os.unlink(xml2)
+    print('rerun %d of %d missing tests -> still missing %d' % (attempt + 1, len(missing), len(want - passed)))
+    missing = sorted(want - passed)
 print('stable_pass=%d passed_now=%d missing=%d' % (len(want), len(passed & want), len(missing)))
 for m in missing[:40]:
     print('  NOT PASSING:', m)
